@@ -1,5 +1,5 @@
 From Coq Require Import ZArith Bool List Lia.
-From CppUVerif Require Import lib.CInt lib.Dbl C09_Model.
+From CppUVerif Require Import lib.CInt lib.Dbl lib.Str C09_Model.
 Import ListNotations.
 Local Open Scope Z_scope.
 
@@ -25,16 +25,6 @@ Lemma int_equals_sym t1 t2 z1 z2 :
   in_range t1 z1 = true -> in_range t2 z2 = true -> int_equals t1 z1 t2 z2 = int_equals t2 z2 t1 z1.
 Proof. intros H1 H2. rewrite !int_equals_math by assumption. apply Z.eqb_sym. Qed.
 
-Lemma bytes_eqb_sym a : forall b, bytes_eqb a b = bytes_eqb b a.
-Proof. induction a as [|x a IH]; destruct b as [|y b]; cbn; try reflexivity. rewrite IH, N.eqb_sym. reflexivity. Qed.
-
-Lemma bytes_eqb_eq a : forall b, bytes_eqb a b = true <-> a = b.
-Proof.
-  induction a as [|x a IH]; destruct b as [|y b]; cbn; split; intro H; try reflexivity; try discriminate H.
-  - apply andb_true_iff in H. destruct H as [Hx Hr]. apply N.eqb_eq in Hx. apply IH in Hr. subst. reflexivity.
-  - inversion H; subst. rewrite N.eqb_refl. cbn. apply IH. reflexivity.
-Qed.
-
 Lemma bytes_eqb_len a : forall b, bytes_eqb a b = true -> length a = length b.
 Proof. intros b H. apply bytes_eqb_eq in H. subst. reflexivity. Qed.
 
@@ -52,7 +42,7 @@ Proof.
   - apply Z.eqb_sym.
   - apply Z.eqb_sym.
   - apply Z.eqb_sym.
-  - rewrite bytes_eqb_sym, Z.eqb_sym. reflexivity.
+  - rewrite (bytes_eqb_sym bytes bytes0), Z.eqb_sym. reflexivity.
 Qed.
 
 Lemma cross_type_false a b : same_kind a b = false -> equals a b = false.
